@@ -428,7 +428,8 @@ class SeqRun:
     def __init__(self, ops):
         self.ops = ops
         self.model = {}  # (cycle, node, label) -> fingerprint recorded at write time
-        self.stale_hist_shift = 0  # cycle offset applied by a split (group attrs keep the old cycle)
+        self.stale_hist_shift = 0  # > 0 once a split has renumbered cycles (group attrs keep the old cycle)
+        self.step_shift = {}  # (cycle, node) as listed now -> cycle offset of the stale attrs of THAT step (several splits add up per step)
         self.readbacks = 0
         self.at = -1
         # identity bookkeeping, independent of armi's serial numbers: every tracked assembly (and its block) has a harness id
@@ -597,7 +598,7 @@ class SeqRun:
         """
         ok = True
         for step in absent_steps:
-            keys = [step] + ([(step[0] + self.stale_hist_shift, step[1])] if self.stale_hist_shift else [])
+            keys = [step] + ([(step[0] + self.step_shift.get(tuple(step), 0), step[1])] if self.step_shift.get(tuple(step), 0) else [])
             cn = next((k for k in keys if k in got and k not in claimed), None)
             if cn is None:
                 continue
@@ -708,7 +709,7 @@ class SeqRun:
                 claimed = set()
                 for cn in wanted:
                     if cn not in absent:
-                        claimed |= {cn, (cn[0] + self.stale_hist_shift, cn[1])}
+                        claimed |= {cn, (cn[0] + self.step_shift.get(cn, 0), cn[1])}
                 self.ghost_check(kind, o, uid, got, p, absent, now, "hist op", claimed, timeSteps is None)
                 for cn in wanted:
                     if cn in absent:
@@ -718,8 +719,8 @@ class SeqRun:
                     rec = self.model[cn + ("",)][sn]
                     exp = rec["loc"] if p == "location" else rec["p:" + p]
                     if cn not in got:
-                        shifted = (cn[0] + self.stale_hist_shift, cn[1])
-                        if self.stale_hist_shift and shifted in got:
+                        shifted = (cn[0] + self.step_shift.get(cn, 0), cn[1])
+                        if self.step_shift.get(cn, 0) and shifted in got:
                             vio(False, "split.history-keys", "after splitDatabase the history is keyed by the pre-split cycle while "
                                 "the steps are listed under the new cycle", self.inp(step=list(cn), history_key=list(shifted)))
                         else:
@@ -744,7 +745,7 @@ class SeqRun:
                     if timeSteps is None and self.labelled_at(cn):
                         vio(False, "hist.label-listed", "history has an entry for a (cycle,node) that only exists as a labelled snapshot",
                             self.inp(obj=sn, param=p, step=list(cn)))
-                    elif self.stale_hist_shift and (cn[0] - self.stale_hist_shift, cn[1]) in wanted:
+                    elif any(sh and (w[0] + sh, w[1]) == cn for w, sh in self.step_shift.items() if w in wanted):
                         pass  # reported above as split.history-keys
                     else:
                         vio(False, "hist.steps", "history has an entry for a step that was not written/requested", self.inp(obj=sn, param=p, step=list(cn)))
@@ -830,6 +831,7 @@ class SeqRun:
         self.model = newmodel
         self.present = {(c - minc, n, ""): self.present[(c, n, "")] for c, n in keep}
         self.stale_hist_shift += minc
+        self.step_shift = {(c - minc, n): self.step_shift.get((c, n), 0) + minc for c, n in keep}
         self.check_listing(self.db, "after split")
 
     # -- driver -------------------------------------------------------------------------------------------------------
